@@ -143,9 +143,13 @@ def run(ctx):
         ctx.sample({'query': c['q'], 'A': c['A'], 'B': c['B'], 'model': e, 'implementation': {k2: g_.get(k2) for k2 in ('events', 'pulls', 'error')} if isinstance(g_, dict) else g_})
     # rbql-js/rbql.js is an anchor of this property too: the JavaScript leg runs language-neutral queries of this shape through rbql-js
     importlib.import_module('props.c19').js_leg(ctx, THEOREM, 'order', 600 if ctx.tier == 'quick' else 60000)
+    # how rbql-js sorts: the real stable_compare / compare_aggregation_keys / SortedWriter against JsSort.v and the reference stable sort
+    importlib.import_module('props.jssort').run(ctx)
 
 
 def replay(ctx, case):
+    if case.get('part') == 'jssort':
+        return importlib.import_module('props.jssort').replay(ctx, {k: v for k, v in case.items() if k != 'part'})
     if case.get('impl') == 'js':
         return importlib.import_module('props.c19').replay(ctx, case)
     ec.replay(ctx, case, THEOREM, rel=rel)
